@@ -53,7 +53,7 @@ def cases(tier, seed):
                     cs.append({'kind': 'origins', 'kinds': list(kinds), 'family': fam,
                                'consumer': cons, 'mask_mode': modes[(ci + rep + len(cs)) % 4],
                                'seed': seed * 7919 + len(cs)})
-    n = 500 if tier == 'quick' else 7000
+    n = 500 if tier == 'quick' else 14000
     for i in range(n):
         cs.append({'kind': 'random', 'prog_seed': seed * 1000003 + 300000 + i,
                    'family': '1d' if i % 2 == 0 else '2d',
